@@ -408,3 +408,88 @@ func TestVerifC06Interop(t *testing.T) {
 	c.Floor("extreme-padding", 0.1)
 	rapid.Check(t, func(rt *rapid.T) { vfC06Case(rt, c) })
 }
+
+// TestVerifC06LongSession: many frames in both directions of one connection, so
+// that the nonce counter and the length-mask generator run past their one- and
+// two-byte carries (frames 256 and 65536) against the reference implementation.
+func TestVerifC06LongSession(t *testing.T) {
+	vfSetup(t)
+	c := ev.For("C06")
+	c.Rule("long-session: one connection per role arrangement carrying N frames in each direction (quick N = 700, thorough N = 66000: past the second carry of the big-endian nonce counter), small frames from the reference side, 1-byte writes and a few large writes from the real side; oracle: every frame of the real side opens in the reference decoder with the expected payload, everything the reference sends is delivered intact")
+	n := 700
+	if ev.Thorough() {
+		n = 66000
+	}
+	shard, nshards := ev.IntEnv("VERIF_SHARD", 0), ev.IntEnv("VERIF_NSHARDS", 1)
+	for ri, realIsClient := range []bool{true, false} {
+		if ri%nshards != shard%2 && nshards > 1 {
+			continue
+		}
+		br := vfBridge{ID: refobfs4.NewIdentity(vfEnt(0x106)(52)), Seed: vfEnt(0x107)(24)}
+		s, err := vfRefSession(br, vfEnt(0x108+uint64(ri)), realIsClient, false)
+		if err != nil {
+			t.Fatalf("VIOL[c06-session]: %v", err)
+		}
+		dirIn, dirOut := byte(1), byte(0)
+		if !realIsClient {
+			dirIn, dirOut = 0, 1
+		}
+		// reference -> real: n small frames, released in a few big segments
+		var want []byte
+		off := 0
+		var batch []byte
+		for i := 0; i < n; i++ {
+			k := 1 + i%3
+			pl := vfCounterStream(dirIn, off, k)
+			off += k
+			want = append(want, pl...)
+			batch = append(batch, s.Enc.Frame(refobfs4.PktPayload, pl, i%2)...)
+			if len(batch) > 60000 || i == n-1 {
+				s.N.Inject(s.RefSide, batch)
+				s.N.ReleaseAll(s.RefSide)
+				batch = nil
+				if err := s.N.WaitQuiescent(s.RealSide); err != nil {
+					t.Fatalf("VIOL[c06-wedge]: %v", err)
+				}
+				if rerr := s.Ep.ReadErr(); rerr != nil {
+					t.Fatalf("VIOL[c06-long-session-read]: realIsClient=%v: Read failed after about %d reference frames: %v", realIsClient, i+1, rerr)
+				}
+			}
+		}
+		if got := s.Ep.Got(); !bytes.Equal(got, want) {
+			t.Fatalf("VIOL[c06-long-session-read]: realIsClient=%v: %d of %d bytes delivered from %d reference frames", realIsClient, len(got), len(want), n)
+		}
+		// real -> reference: 1-byte writes (one payload frame + padding frames each) until n frames were seen
+		frames := 0
+		woff := 0
+		for frames < n {
+			sz := 1
+			if frames%97 == 0 {
+				sz = 40000 // 29 frames at once
+			}
+			data := vfCounterStream(dirOut, woff, sz)
+			res, wn, _ := s.Ep.Write(data)
+			if res.Failed() || res.Err != nil || wn != sz {
+				t.Fatalf("VIOL[c06-long-session-write]: Write(%d) = %d, %s", sz, wn, res)
+			}
+			s.Dec.Feed(s.N.Take(s.RealSide))
+			fr, err := s.Dec.All()
+			if err != nil {
+				t.Fatalf("VIOL[c06-long-session-frame]: realIsClient=%v: the reference decoder cannot open frame %d of the real side's stream: %v", realIsClient, frames+len(fr)+1, err)
+			}
+			var got []byte
+			for _, f := range fr {
+				got = append(got, f.Payload...)
+			}
+			if !bytes.Equal(got, data) {
+				t.Fatalf("VIOL[c06-long-session-frame]: realIsClient=%v: payload mismatch around frame %d", realIsClient, frames)
+			}
+			frames += len(fr)
+			woff += sz
+		}
+		s.N.Shutdown()
+		c.Bulk(2, 2)
+		c.Sample(ev.Hash("long", realIsClient, n), map[string]any{"unit": "long-session", "real_is_client": realIsClient, "frames_each_way": n})
+	}
+	c.Class("long-session-frames-each-way", int64(n))
+}
